@@ -279,7 +279,7 @@ def _generate(sub, configs):
     """One TLC run per configuration (thorough: one per BASE x flavour, side by side)."""
     out = sub.cov.setdefault("_collect", [])
     for consts, wit in configs:
-        cases, _ = table_common.generate(sub, "MergeLawsGen", consts, witnesses=wit, workers=1 if len(configs) > 1 else 4,
+        cases, _ = table_common.generate(sub, "MergeLawsGen", consts, witnesses=wit, workers=4 if sub.quick else 1,
                                          timeout=1500, label="MergeLawsGen %s %s" % (consts["Bases"], consts["Flavours"]))
         out.extend(cases)
 
@@ -299,7 +299,7 @@ def run(ctx):
         table_common.generate(ctx, "MergeLawsGen", {"Bases": "{%s}" % FULL, "MaxSide": 2, "MaxPair": 1, "MaxSum": 2,
                                                     "Flavours": both, "CrossCheck": "TRUE"}, workers=4, timeout=1500,
                               label="MergeLawsGen cross-check against brute force")
-    core.fork_map(ctx, _generate, [[k] for k in configs], chunks_per_proc=len(configs))
+    core.fork_map(ctx, _generate, configs)
     cases = list(ctx.collected)
     del ctx.collected[:]
     if not cases:
